@@ -29,7 +29,7 @@ from fractions import Fraction as Fr
 from harness.drive import f2b, b2f
 
 ID = "C04"
-THEOREM_MODULES = ["JF.Props.C04", "JF.Props.C04Piecewise", "JF.Props.C04C12"]
+THEOREM_MODULES = ["JF.Props.C04", "JF.Props.C04Piecewise", "JF.Props.C04C12", "JF.Props.C04C12N"]
 COMPONENTS = ["thin", "pcb"]
 ASSUMPTIONS = [
     "Dominates (the 1/r bound with the shipped prefactor is >= the merged-image Coulomb derivative on the whole "
